@@ -167,6 +167,52 @@ theorem computeError_invalid {F p eb sm lg a b} (LL : LemLayout F p eb sm lg a b
     injection h with h; subst h
     exact computeErrorScaled_exp LL q hi _ r1 r2
 
+/-- `compute_product_approx` answers for every exponent inside the table -/
+theorem cpa_isSome (q : Int) (w prec : Nat) (h1 : -342 ≤ q) (h2 : q ≤ 308) :
+    ∃ r, computeProductApprox q w prec = some r := by
+  have hsm : Gen.Lemire.smallestPowerOfFive = -342 := rfl
+  have hidx : asU64 (wrapI64 (q - Gen.Lemire.smallestPowerOfFive)) = (q + 342).toNat := by
+    rw [hsm]
+    unfold asU64 wrapI64 wrapI
+    have h64 : (2 : Int) ^ 64 = 18446744073709551616 := by decide
+    have h63 : (2 : Int) ^ (64 - 1) = 9223372036854775808 := by decide
+    simp only [h64, h63]
+    omega
+  have hlt : (q + 342).toNat < Gen.Lemire.powerOfFive128.size := by rw [table_size]; omega
+  unfold computeProductApprox
+  simp only [hidx, Array.getElem?_eq_getElem hlt]
+  split <;> (split <;> exact ⟨_, rfl⟩)
+
+theorem ok_ite_ne (c : Prop) [Decidable c] (a b : ExtendedFloat80) :
+    (if c then AlgoRes.ok a else .ok b) ≠ .panic := by split <;> simp
+
+theorem cfRound_no_panic (F : FTy) (q : Int) (lo hi lz : Nat) : cfRound F q lo hi lz ≠ .panic := by
+  unfold cfRound
+  simp only []
+  split
+  · exact ok_ite_ne _ _ _
+  · exact ok_ite_ne _ _ _
+
+/-- **`compute_float` never panics** (the checked table index is always in range) -/
+theorem computeFloat_no_panic {F p eb sm lg a b} (LL : LemLayout F p eb sm lg a b) (q : Int) (w : Nat)
+    (lossy : Bool) : computeFloat F q w lossy ≠ .panic := by
+  unfold computeFloat
+  split
+  · simp
+  · split
+    · simp
+    · rename_i h1 h2
+      have hq1 : -342 ≤ q := by
+        have := LL.smallest; have := LL.sm342
+        have : ¬ q < F.C.smallestPowerOfTen := fun h => h1 (Or.inr h)
+        omega
+      have hq2 : q ≤ 308 := by have := LL.largest; have := LL.lg308; omega
+      obtain ⟨r, hr⟩ := cpa_isSome q (shl64m w (clz64 w)) (F.ms + litPrecisionExtra) hq1 hq2
+      simp only [hr]
+      split
+      · simp
+      · exact cfRound_no_panic _ _ _ _ _
+
 /-! ## the two-pass wrapper -/
 
 /-- `compute_float` is right on `(q, w)`: a valid answer is `roundNE (w·10^q)` -/
